@@ -628,6 +628,7 @@ Definition env_spec (cs : bool) (sv : server) (r : rule) (q : request) (f : byte
            (got : list (bytes * bytes)) : bool :=
   let g k := match lookup (bs k) got with Some v => v | None => [] end in
   let has k := match lookup (bs k) got with Some _ => true | None => false end in
+  let ov k := mem (bs k) (map fst (r_env r)) in
   let hn := map (fun kv => env_name (fst kv)) (q_headers q) in
   nodupb (map fst got) &&
   (* every header as HTTP_* (one of the colliding ones if two fields map to the same name) *)
@@ -668,6 +669,13 @@ Definition env_spec (cs : bool) (sv : server) (r : rule) (q : request) (f : byte
    beq (q_remote q) ([91] ++ g "REMOTE_ADDR" ++ [93; 58] ++ g "REMOTE_PORT") ||
    (beq (g "REMOTE_PORT") [] && beq (q_remote q) (g "REMOTE_ADDR"))) &&
   beq (g "GATEWAY_INTERFACE") (bs "CGI/1.1") &&
+  (ov "REMOTE_ADDR" || forallb (fun c => negb ((c =? 91) || (c =? 93))) (g "REMOTE_ADDR")) &&
+  (ov "REMOTE_HOST" || ov "REMOTE_ADDR" || beq (g "REMOTE_HOST") (g "REMOTE_ADDR")) &&
+  (ov "REMOTE_USER" || beq (g "REMOTE_USER") (q_user q)) &&
+  (ov "SERVER_SOFTWARE" || beq (g "SERVER_SOFTWARE") (sv_software sv ++ [SLASH] ++ sv_version sv)) &&
+  (ov "REQUEST_SCHEME" || beq (g "REQUEST_SCHEME") (bs "http")) &&
+  (let ct := hdr_get (bs "Content-Type") (q_headers q) in
+   beq ct [] || beq (g "CONTENT_TYPE") ct) &&
   (* a declared body length is announced as such *)
   (if (0 <=? q_cl q)%Z && sends_body (q_method q) then beq (g "CONTENT_LENGTH") (dec bodylen) else true).
 
